@@ -11,8 +11,9 @@ from vlib import rec, gen_dt
 ID = 'C09'
 LEVEL = 'exploration'
 RULE = ('generated programs of ~10-25 steps: define base classes, subclasses overriding accessibles (by Parameter() with '
-        'property-only change, new datatype, bare value, None, method over command, inherit=False), mixins and multiple '
-        'inheritance, instantiate with and without configuration overrides, mutate ONE instance at run time (datatype '
+        'property-only change, new datatype, bare value, None, method over command, inherit=False), mixins (HasAccessibles '
+        'mixins adding a parameter, plain-class mixins adjusting existing parameters by partial Parameter() declarations) and '
+        'multiple inheritance from two classes of the program (with and without own overrides), instantiate with and without configuration overrides, mutate ONE instance at run time (datatype '
         'property at any depth, main unit, enum name, controlled_by enum growth via register_input, command argument '
         'optional list). frame rule after every step; every program is also built as a twin in another definition / '
         'creation order with unrelated classes in between. distinct = (step kinds of the program); non-trivial = '
@@ -20,7 +21,8 @@ RULE = ('generated programs of ~10-25 steps: define base classes, subclasses ove
 ASSUMPTIONS = ['a snapshot = export of every accessible (for_export, datatype description and repr, default/value/readonly/export), '
                'order of accessibles, exported module properties, plus accept/reject verdicts of boundary probes',
                'names of modules are normalised when comparing instances of the same class and configuration']
-REQUIRED = ['programs', 'steps', 'frame_checks', 'later_instance_checks', 'twin_checks', 'mutations', 'subclass_steps']
+REQUIRED = ['programs', 'steps', 'frame_checks', 'later_instance_checks', 'twin_checks', 'mutations', 'subclass_steps',
+            'multiple_inheritance_steps']
 
 N = {'quick': 30, 'thorough': 1500}
 
@@ -188,6 +190,23 @@ class World:
         kind, dt, dflt = self.leaf_dt()
         return type(f'Mixin_{self.uid}', (self.HasAccessibles,), {'mx': C.Parameter('mixin par', dt, default=dflt), '__module__': __name__})
 
+    def new_plain_mixin(self, plist):
+        """a plain class (not derived from HasAccessibles) that adjusts existing parameters by partial Parameter()
+        declarations - to be placed in front of a module class"""
+        rng, C = self.rng, self.C
+        self.uid += 1
+        ns = {'__module__': __name__}
+        for name, kind in rng.sample(plist, rng.choice([1, min(2, len(plist))])):
+            q = rng.random()
+            prop = {'double': ('max', 5.0), 'int': ('max', 5), 'scaled': ('unit', 'V'), 'string': ('maxchars', 3), 'array': ('maxlen', 2)}.get(kind)
+            if q < 0.4 or prop is None:
+                ns[name] = C.Parameter(readonly=rng.random() < 0.5)
+            elif q < 0.8:
+                ns[name] = C.Parameter(**{prop[0]: prop[1]})
+            else:
+                ns[name] = C.Parameter(group='pm')
+        return type(f'Plain_{self.uid}', (), ns)
+
     def gen_cfg(self, cls):
         rng = self.rng
         cfg = {}
@@ -279,6 +298,7 @@ class World:
         if not frame(('define', 'Base'), 'Base'):
             return
         mixin = self.new_mixin() if rng.random() < 0.4 else None
+        pmixin = self.new_plain_mixin(plist) if rng.random() < 0.5 else None
         nsteps = rng.randint(8, 22)
         nsub = 0
         kinds_used = set()
@@ -289,10 +309,24 @@ class World:
                 nsub += 1
                 parent_lab = rng.choice(list(classes))
                 bases = [classes[parent_lab]]
+                shape = []
+                if len(classes) > 1 and rng.random() < 0.35:
+                    # multiple inheritance from two classes of the program (diamond over Base)
+                    other = rng.choice([l for l in classes if l != parent_lab])
+                    bases.append(classes[other])
+                    shape.append('diamond+' + other)
                 if mixin and rng.random() < 0.3:
                     bases.insert(0, mixin)
+                    shape.append('mixin')
+                if pmixin and rng.random() < 0.4:
+                    bases.insert(0, pmixin)
+                    shape.append('plain-mixin')
                 lab = f'Sub{nsub}'
-                cls, kinds, err = self.new_sub(lab, bases, plist, hascmd)
+                sub_plist = plist if rng.random() < 0.6 or not shape else []     # with several bases: often no own overrides
+                cls, kinds, err = self.new_sub(lab, bases, sub_plist, hascmd and bool(sub_plist))
+                kinds = kinds + shape
+                if shape:
+                    r.count('multiple_inheritance_steps')
                 log.append(['subclass', lab, parent_lab, kinds, err])
                 r.count('subclass_steps')
                 kinds_used.update(kinds)
